@@ -374,6 +374,19 @@ func sequence(r *ev.Run, c *ev.Case, seqNo int, mon *chalMon) {
 				rec.HardKeySpelling = spell
 			}
 		}
+		if ps2.HardKey && rec.HardKeySpelling == "" && rng.Intn(2) == 0 {
+			// the same request in the current encoding, with an extension entry that says otherwise (the extension
+			// map is free-form client data; the typed attribute is the request)
+			extKey := []string{"HardKey", "hardkey", "HARDKEY", "hardKey"}[rng.Intn(4)]
+			extVal := []string{"false", `"0"`, `"false"`, "0", "null", `"f"`}[rng.Intn(6)]
+			line := fmt.Sprintf(`{"ifVer":7,"username":"u","hostname":"h","sshClientVersion":"8.1","hardKey":true,"exts":{"%s":%s}}`, extKey, extVal)
+			env := map[string]string{"SSH_ORIGINAL_COMMAND": line, "LOGNAME": logName, "SSH_CONNECTION": ps2.ClientIP + " 50000 10.0.0.1 22"}
+			if np, nerr := csr.NewReqParam(func(k string) string { return env[k] }, func() []string { return []string{"gensign", "-c", "/usr/bin/gensign " + ps2.Policy + " Regular"} }); nerr == nil && np != nil && np.Attrs != nil && np.Attrs.HardKey {
+				param = np
+				rec.HardKeySpelling = "json+exts:" + extKey + "=" + extVal
+				r.Count("hardware-key requests in the current encoding with a contradicting extension entry", 1)
+			}
+		}
 		// the interface version is a client claim like any other: whatever it says, a hardware-key request is refused
 		param.Attrs.IfVer = []int{7, 7, 6, 5, 0, -1, 1 << 30}[rng.Intn(7)]
 		rec.IfVer = param.Attrs.IfVer
@@ -872,6 +885,63 @@ func handlerLists(r *ev.Run) {
 					})
 				}
 			}
+		}
+	}
+	// one handler list serves request after request: which handler accepts differs per request, the order in which
+	// they are asked does not. Per list a sequence of four requests with their own accept patterns.
+	for n := 2; n <= 4; n++ {
+		for v := 0; v < 6; v++ {
+			c := r.Case("handlers-reused", idx)
+			idx++
+			if c == nil {
+				continue
+			}
+			r.Eval(1)
+			r.Guard(c, "handler list reused across requests", nil, func() {
+				var log []string
+				var hs []gensign.Handler
+				var stubs []*stubHandler
+				for i := 0; i < n; i++ {
+					s := &stubHandler{name: fmt.Sprintf("stub%d", i), log: &log}
+					stubs = append(stubs, s)
+					hs = append(hs, s)
+				}
+				var pats []int
+				for q := 0; q < 4; q++ {
+					// the first request is accepted by a late handler only, later ones by several
+					pat := 1 << uint(n-1)
+					if q > 0 {
+						pat = c.Rand.Intn(1<<uint(n)-1) + 1
+						if q == 1+v%3 {
+							pat = 1<<uint(n) - 1
+						}
+					}
+					pats = append(pats, pat)
+					first := ""
+					for i, st := range stubs {
+						st.accept = pat&(1<<uint(i)) != 0
+						st.genCalls = 0
+						if st.accept && first == "" {
+							first = st.name
+						}
+					}
+					signer := &gsrig.Signer{}
+					err, escaped := gsrig.Run(gsrig.Param(gsrig.ParamSpec{LogName: "alice", ReqUser: "u", ReqHost: "h", ClientIP: "1.2.3.4", TransID: fmt.Sprintf("%010d", q), Policy: "NONS"}), hs, signer)
+					rec := map[string]any{"handlers": n, "accept_patterns_so_far": pats, "log": log}
+					if escaped != "" {
+						r.Violation(c, gsrig.EscapeSig(escaped)+":handler-list-reused", escaped, rec)
+						return
+					}
+					for _, st := range stubs {
+						if (st.genCalls > 0) != (st.name == first) {
+							r.Violation(c, "request-not-produced-by-first-accepting-handler:reused-list", fmt.Sprintf("request %d of the list (accept pattern %0*b, earlier patterns %v): first accepting handler in configured order is %s, %s generated %d times; err=%v", q, n, pat, pats[:q], first, st.name, st.genCalls, err), rec)
+							return
+						}
+					}
+				}
+				r.Count("handler lists reused for four requests judged", 1)
+				r.Nontrivial(fmt.Sprintf("reused:%d:%v", n, pats))
+			})
 		}
 	}
 	r.Extra("handler_list_patterns", idx)
